@@ -72,6 +72,56 @@ def import_ampycloud():
     return ampycloud
 
 
+class _Sink:
+    """A logging handler that formats every record (so that lazy argument formatting really runs) and drops it."""
+
+    def __new__(cls):
+        import logging
+
+        class Sink(logging.Handler):
+            def emit(self, record):
+                try:
+                    self.format(record)
+                except Exception:  # a formatting problem of a log record is not a property failure
+                    pass
+        return Sink(level=logging.DEBUG)
+
+
+import contextlib
+
+
+@contextlib.contextmanager
+def debug_logging(on=True):
+    """Ambient configuration: run the body with the `ampycloud` loggers effective at DEBUG (records formatted by a
+    sink handler, nothing printed).  The default for all checks is logging disabled; a share of the cases is run
+    under this variant because the package's behaviour must not depend on the logging configuration."""
+    if not on:
+        yield
+        return
+    import logging
+    lg = logging.getLogger('ampycloud')
+    prev_disable = logging.root.manager.disable
+    prev_level, prev_prop = lg.level, lg.propagate
+    sink = _Sink()
+    logging.disable(logging.NOTSET)
+    lg.setLevel(logging.DEBUG)
+    lg.addHandler(sink)
+    lg.propagate = False
+    try:
+        yield
+    finally:
+        lg.removeHandler(sink)
+        lg.setLevel(prev_level)
+        lg.propagate = prev_prop
+        logging.disable(prev_disable)
+
+
+def ambient_debug_for(key, share=4) -> bool:
+    """Deterministic choice (from the case itself, not from the PRNG stream) of the cases run under DEBUG logging."""
+    import zlib
+    return zlib.crc32(repr(key).encode()) % share == 0
+
+
 def frac(x) -> str:
     """Exact rendering of a Python/numpy float or int as `p/q`, NaN as `nan`."""
     import math
@@ -117,12 +167,29 @@ def lean_build(targets):
     return r.returncode == 0, (r.stdout + r.stderr)[-4000:]
 
 
-def theorem_names(prop: str):
-    """Names of the property theorems `Cxx_*` declared in Ampy/Props/Cxx.lean."""
+def theorem_files(prop: str):
+    """Files holding the property's theorems: Props/Cxx.lean, and Props/Monitor.lean (soundness of the run-time
+    monitor's spec predicates) when it declares theorems for this property."""
+    out = []
     f = LEAN / 'Ampy' / 'Props' / f'{prop}.lean'
-    if not f.exists():
-        return []
-    return re.findall(rf'^theorem\s+({prop}_\w+)', f.read_text(), flags=re.M)
+    if f.exists():
+        out.append(f)
+    m = LEAN / 'Ampy' / 'Props' / 'Monitor.lean'
+    if m.exists() and re.search(rf'^theorem\s+{prop}_\w+', m.read_text(), flags=re.M):
+        out.append(m)
+    return out
+
+
+def theorem_modules(prop: str):
+    return ['Ampy.Props.' + f.stem for f in theorem_files(prop)]
+
+
+def theorem_names(prop: str):
+    """Names of the property theorems `Cxx_*` declared in Ampy/Props/Cxx.lean (and Props/Monitor.lean)."""
+    names = []
+    for f in theorem_files(prop):
+        names += re.findall(rf'^theorem\s+({prop}_\w+)', f.read_text(), flags=re.M)
+    return names
 
 
 def import_closure(roots):
@@ -144,7 +211,7 @@ def import_closure(roots):
 def grep_forbidden(prop=None):
     """Forbidden constructs in the Lean sources the property's theorems and the driver are built from
     (comments stripped)."""
-    roots = ['Main'] + ([f'Ampy.Props.{prop}'] if prop else [])
+    roots = ['Main'] + (theorem_modules(prop) if prop else [])
     files = import_closure(roots) if prop else list((LEAN / 'Ampy').rglob('*.lean')) + [LEAN / 'Main.lean']
     hits = []
     for f in files:
@@ -163,7 +230,7 @@ def audit_axioms(prop: str):
     names = theorem_names(prop)
     if not names:
         return {}, [f'no theorem named {prop}_* found']
-    src = f'import Ampy.Props.{prop}\n' + ''.join(f'#print axioms Ampy.{n}\n' for n in names)
+    src = ''.join(f'import {m}\n' for m in theorem_modules(prop)) + ''.join(f'#print axioms Ampy.{n}\n' for n in names)
     tmp = LEAN / '.lake' / f'audit_{prop}_{os.getpid()}.lean'
     tmp.parent.mkdir(exist_ok=True)
     tmp.write_text(src)
@@ -275,7 +342,7 @@ class Check:
     # -- Lean ---------------------------------------------------------------------------------
     def prove(self):
         """Build the property's proof target + driver, audit axioms and forbidden constructs."""
-        ok, log = lean_build([f'Ampy.Props.{self.prop}', 'ampydrv'])
+        ok, log = lean_build(theorem_modules(self.prop) + ['ampydrv'])
         names = theorem_names(self.prop)
         self.obligations = len(names)
         if not ok:
@@ -372,7 +439,7 @@ class Check:
             'samples': self.samples[:8],
             'obligations': self.obligations,
             'discharged': self.discharged,
-            'checker_cmd': f'cd lean && lake build Ampy.Props.{self.prop} && lake env lean <#print axioms of every {self.prop}_* theorem>',
+            'checker_cmd': f"cd lean && lake build {' '.join(theorem_modules(self.prop))} && lake env lean <#print axioms of every {self.prop}_* theorem>",
             'trusted_base': TRUSTED_BASE,
             'exhaustive': self.exhaustive,
             'theorems': {n: self.axioms.get(n) for n in theorem_names(self.prop)},
